@@ -58,12 +58,12 @@ PROPS = {
         ],
     },
     "C02": {
-        "units": ["cer", "clt"], "kani_complete": [], "kani_bounded_quick": ["choose_alg"], "kani_bounded_thorough": [],
+        "units": ["cer", "clt", "org"], "kani_complete": [], "kani_bounded_quick": ["choose_alg"], "kani_bounded_thorough": [],
         "design_ref": "DESIGN.md section 5 / C02",
         "not_covered": [
             "Client::register's dataflow is decided by unit clt (client data fields, request assembly, both authenticator-data copies "
             "come from the same bytes, id = base64url(rawId), algorithm number); NOT covered: what serde_json / base64url / ciborium / "
-            "public_key_der_from_cose_key / Origin's Display produce (uninterpreted functions), 'valid P-256 point', the constant members "
+            "public_key_der_from_cose_key produce (uninterpreted functions; Origin's Display is proved by unit org over a model of url::Url and of write!), 'valid P-256 point', the constant members "
             "of the attestation object (rule R22 drops them)",
             "choose_algorithm is proved ('first supported entry') over a trusted model of slice::Iter::find (rule R19); "
             "the bounded Kani harness K-CHOOSE-ALG checks the same statement on the compiled crate",
@@ -81,14 +81,14 @@ PROPS = {
         ],
     },
     "C03": {
-        "units": ["cer", "clt"], "kani_complete": [], "kani_bounded_quick": [], "kani_bounded_thorough": [],
+        "units": ["cer", "clt", "org"], "kani_complete": [], "kani_bounded_quick": [], "kani_bounded_thorough": [],
         "design_ref": "DESIGN.md section 5 / C03",
         "not_covered": [
             "that the ECDSA signature verifies under the registered public key: p256 is an assumed dependency "
             "(spec_sign is an uninterpreted function of the stored COSE key and the message)",
             "Client::authenticate's dataflow is decided by unit clt (client data fields, request assembly incl. the allow list as given, "
-            "id = base64url(rawId), user handle, NoCredentials -> CredentialNotFound); NOT covered: what serde_json / base64url / Origin's "
-            "Display produce (uninterpreted functions of their arguments)",
+            "id = base64url(rawId), user handle, NoCredentials -> CredentialNotFound); NOT covered: what serde_json / base64url produce (uninterpreted functions of their "
+            "arguments; Origin's Display is proved by unit org: scheme://host[:port] for an origin URL)",
             "the exact byte encoding of authenticator data (spec_ad_bytes is uninterpreted here; see C12)",
         ],
     },
